@@ -110,6 +110,10 @@ def shards(tier, seed):
     return out
 
 
+def opt_shards(tier):
+    return [{"plain": "wxyz", "max_el": 2, "r": r, "n": 8} for r in range(8)]
+
+
 def run_shard(sh):
     st = Stats()
     if sh.get("long"):
